@@ -101,4 +101,15 @@ theorem parseChars_formatChars (t : Int) (hy : 1000 ≤ (fieldsOfSeconds t).y)
   rw [hv]
   simp only [↓reduceIte, hs]
 
+/-! ### the zone table -/
+
+theorem foldl_later (t : Int) (post : List (Int × Int)) (acc : Int) (h : ∀ p ∈ post, t < p.1) :
+    post.foldl (fun acc p => if p.1 ≤ t then p.2 else acc) acc = acc := by
+  induction post generalizing acc with
+  | nil => rfl
+  | cons p ps ih =>
+    have hp : ¬ p.1 ≤ t := by have := h p (List.mem_cons_self ..); omega
+    simp only [List.foldl_cons, hp, ↓reduceIte]
+    exact ih acc (fun q hq => h q (List.mem_cons_of_mem _ hq))
+
 end Acn.HttpDate
